@@ -792,6 +792,14 @@ def check_C16(tier: str, seed: int) -> int:
             if items:
                 out.add_sample({"kind": kind, "config": items[len(items) // 2]["cfg"],
                                 "expected_accept": items[len(items) // 2]["expected"]["accept"]}, limit=6)
+        # the remaining layers of the statement: batchnorm, softmax / logsoftmax, softmax_crossentropy (Interp.tla, exact at
+        # interpretation points) and the focal losses (Kernels.tla rows of kind "focal", evaluated on a grid of probabilities)
+        icells, ibad = stage_interp(out, scratch, funcs=("softmax", "logsoftmax", "softmax_crossentropy", "batchnorm", "sigmoid", "elu", "glu"))
+        _, nfocal, nfbad = stage_kernels(out, kinds=("focal",))
+        out.coverage["interp_cells"] = icells
+        out.coverage["focal_rows"] = nfocal
+        total += icells + nfocal
+        agree += icells + nfocal - ibad - nfbad
         out.coverage["exhaustive"] = True
         out.coverage["configurations_executed"] = total
         out.coverage["configurations_agreeing"] = agree
@@ -802,7 +810,8 @@ def check_C16(tier: str, seed: int) -> int:
     finally:
         shutil.rmtree(scratch, ignore_errors=True)
     out.assumptions += ["integer-valued fillers: float64 arithmetic is exact, values compared with ==",
-                        "softmax / losses / batchnorm / GRU numerics are outside this table (DESIGN section 9)"]
+                        "softmax / logsoftmax / crossentropy / batchnorm: exact at the interpretation points of Interp.tla, 1e-9 relative; "
+                        "focal losses: 1e-9 relative on a grid of class probabilities (Kernels.tla)"]
     cov = out.coverage
     cov["rule"] = ("every configuration of spec/tables/Layers.tla within the stated bounds (TLC initial states, exhaustive) is "
                    "executed twice (contiguous and strided input); distinct = distinct configurations")
@@ -1009,6 +1018,80 @@ def check_C03(tier: str, seed: int) -> int:
     return out.finish()
 
 
+def stage_kernels(out: core.Outcome, kinds=None):
+    """Rows of spec/tables/Kernels.tla (optionally only some kinds) evaluated on their domain grids."""
+    from . import kernels
+
+    kspec = os.path.join(tlc.SPEC, "tables", "Kernels.tla")
+    rc, o, wall = tlc.run_tlc(kspec, os.path.join(tlc.SPEC, "tables", "Kernels.cfg"), workers=1, timeout=600)
+    st = tlc.parse_stats(o)
+    rows, bad = replay.parse_behaviours(o)
+    if rc != 0 or st is None or bad:
+        out.machinery(f"Kernels.tla failed rc={rc}: {o[-1200:]}")
+    krows = set()
+    nk = n = 0
+    for it in rows:
+        row = it["row"]
+        if kinds is not None and row["kind"] not in kinds:
+            continue
+        n += 1
+        krows.add(row["f"].lower())
+        out.judged += 1
+        try:
+            r = kernels.run_row(row)
+        except Exception as ex:  # noqa: BLE001
+            r = ("exception", "none", f"{type(ex).__name__}: {str(ex)[:160]}")
+        if r is None:
+            continue
+        nk += 1
+        out.violation({"kind": "kernel-table", "rerun": ["kernels", "run_row", [row]],
+                       "row": {k: v for k, v in row.items() if k not in ("d", "val", "dtarget", "dother")}, "what": r[0],
+                       "expected": str(r[1]), "observed": str(r[2])},
+                      f"kernel {row['f']} ({row['kind']}): {r[0]}: expected {str(r[1])[:120]}, MyGrad gives {str(r[2])[:120]}")
+    if st:
+        out.coverage["states"] = out.coverage.get("states", 0) + st["distinct"]
+        out.coverage["transitions"] = out.coverage.get("transitions", 0) + st["generated"]
+    return krows, n, nk
+
+
+def stage_interp(out: core.Outcome, scratch: str, seen_ops=None, groups=("exp", "sqrt"), funcs=None):
+    """Cells of spec/tables/Interp.tla: exp / log / sqrt kernels at points where value or VJP is rational."""
+    from . import interp
+
+    ispec = os.path.join(tlc.SPEC, "tables", "Interp.tla")
+    icells = ibad = 0
+    for g in groups:
+        icfg = os.path.join(scratch, f"interp-{g}.cfg")
+        with open(icfg, "w") as f:
+            f.write(f'SPECIFICATION Spec\nCONSTANTS\n  Group = "{g}"\nINVARIANT SoftmaxSumsToOne\nINVARIANT Emit\nCHECK_DEADLOCK FALSE\n')
+        rc, o, wall = tlc.run_tlc(ispec, icfg, workers=1, timeout=900)
+        sti = tlc.parse_stats(o)
+        items, bad = replay.parse_behaviours(o)
+        if rc != 0 or sti is None or bad or len(items) != sti["distinct"]:
+            out.machinery(f"Interp.tla ({g}) failed rc={rc} bad={bad}: {o[-1200:]}")
+            continue
+        out.coverage["states"] = out.coverage.get("states", 0) + sti["distinct"]
+        out.coverage["transitions"] = out.coverage.get("transitions", 0) + sti["generated"]
+        for it in items:
+            if funcs is not None and it["cell"]["f"] not in funcs:
+                continue
+            icells += 1
+            out.judged += 1
+            if seen_ops is not None:
+                seen_ops.add(it["cell"]["f"])
+            try:
+                r = interp.run_cell(it)
+            except Exception as ex:  # noqa: BLE001
+                r = ("exception", "none", f"{type(ex).__name__}: {str(ex)[:160]}")
+            if r is None:
+                continue
+            ibad += 1
+            out.violation({"kind": "interp-table", "rerun": ["interp", "run_cell", [it]], "cell": it["cell"], "what": r[0], "expected": r[1], "observed": r[2]},
+                          f"interpretation-point table: {it['cell']['f']} {json.dumps({k: v for k, v in it['cell'].items() if k not in ('x', 'f')})}: "
+                          f"{r[0]}: exact {r[1]!r}, MyGrad {r[2]!r}")
+    return icells, ibad
+
+
 # ----------------------------------------------------------------------------- C02: every operation's VJP
 OPTABLE_GROUPS = ["binary", "unary", "reduce", "matmul", "getitem", "setitem", "whereout", "move",
                   "activation", "cumulative", "sequence", "einsum", "conv", "maxpool", "loss", "inplace"]
@@ -1035,7 +1118,7 @@ def _uncovered_operations(seen_ops: set, kernel_rows: set):
              "ReLu": "relu", "ApplyMask": "uout", "UnView": "setitem", "Absolute": "abs", "CumSum": "cumsum", "CumProd": "cumprod",
              "AddSequence": "addseq", "MultiplySequence": "mulseq", "ConvND": "conv", "MaxPoolND": "maxpool",
              "MarginRanking": "margin_ranking", "MulticlassHinge": "multiclass_hinge", "Sigmoid": "sigmoid", "Softmax": "softmax",
-             "LogSoftmax": "logsoftmax", "SoftmaxCrossEntropy": "softmax_crossentropy", "ELU": "elu", "StdDev": "std",
+             "LogSoftmax": "logsoftmax", "FocalLoss": "focal_loss", "SoftmaxCrossEntropy": "softmax_crossentropy", "ELU": "elu", "StdDev": "std",
              "Norm": "norm", "BatchNorm": "batchnorm", "SELU": "selu", "AtLeast1D": "atleast", "AtLeast2D": "atleast",
              "AtLeast3D": "atleast", "_AtLeastKD": "atleast"}
     out = []
@@ -1116,65 +1199,14 @@ def check_C02(tier: str, seed: int) -> int:
         # random short programs (one to three operations, seeded backward) validated line by line against Ref.tla
         stage_traces(out, profile="c02", n=400 if tier == "quick" else 20000, clauses=["val", "sh", "const", "grad", "np_share"])
         # transcendental kernels: derivative expression trees of Kernels.tla evaluated on domain grids
-        kspec = os.path.join(tlc.SPEC, "tables", "Kernels.tla")
-        rc, o, wall = tlc.run_tlc(kspec, os.path.join(tlc.SPEC, "tables", "Kernels.cfg"), workers=1, timeout=600)
-        st = tlc.parse_stats(o)
-        rows, bad = replay.parse_behaviours(o)
-        if rc != 0 or st is None or bad:
-            out.machinery(f"Kernels.tla failed rc={rc}: {o[-1200:]}")
-        krows = set()
-        nk = 0
-        for it in rows:
-            row = it["row"]
-            krows.add(row["f"].lower())
-            out.judged += 1
-            r = kernels.run_row(row)
-            if r is None:
-                continue
-            nk += 1
-            out.violation({"kind": "kernel-table", "rerun": ["kernels", "run_row", [row]], "row": {k: v for k, v in row.items() if k != "d"}, "what": r[0],
-                           "expected": str(r[1]), "observed": str(r[2])},
-                          f"kernel {row['f']} ({row['kind']}): {r[0]}: expected {str(r[1])[:120]}, MyGrad gives {str(r[2])[:120]}")
-        if st:
-            out.coverage["states"] += st["distinct"]
-            out.coverage["transitions"] += st["generated"]
+        krows, nrows, nk = stage_kernels(out)
         # interpretation points: exp / log / sqrt kernels where value or VJP is rational (Interp.tla)
-        from . import interp
-
-        ispec = os.path.join(tlc.SPEC, "tables", "Interp.tla")
-        icells = 0
-        ibad = 0
-        for g in ("exp", "sqrt"):
-            icfg = os.path.join(scratch, f"interp-{g}.cfg")
-            with open(icfg, "w") as f:
-                f.write(f'SPECIFICATION Spec\nCONSTANTS\n  Group = "{g}"\nINVARIANT SoftmaxSumsToOne\nINVARIANT Emit\nCHECK_DEADLOCK FALSE\n')
-            rc, o, wall = tlc.run_tlc(ispec, icfg, workers=1, timeout=900)
-            sti = tlc.parse_stats(o)
-            items, bad = replay.parse_behaviours(o)
-            if rc != 0 or sti is None or bad or len(items) != sti["distinct"]:
-                out.machinery(f"Interp.tla ({g}) failed rc={rc} bad={bad}: {o[-1200:]}")
-                continue
-            out.coverage["states"] += sti["distinct"]
-            out.coverage["transitions"] += sti["generated"]
-            for it in items:
-                icells += 1
-                out.judged += 1
-                seen_ops.add(it["cell"]["f"])
-                try:
-                    r = interp.run_cell(it)
-                except Exception as ex:  # noqa: BLE001
-                    r = ("exception", "none", f"{type(ex).__name__}: {str(ex)[:160]}")
-                if r is None:
-                    continue
-                ibad += 1
-                out.violation({"kind": "interp-table", "rerun": ["interp", "run_cell", [it]], "cell": it["cell"], "what": r[0], "expected": r[1], "observed": r[2]},
-                              f"interpretation-point table: {it['cell']['f']} {json.dumps({k: v for k, v in it['cell'].items() if k not in ('x', 'f')})}: "
-                              f"{r[0]}: exact {r[1]!r}, MyGrad {r[2]!r}")
+        icells, ibad = stage_interp(out, scratch, seen_ops)
         out.coverage["interp_cells"] = icells
         out.coverage["interp_cells_disagreeing"] = ibad
-        out.coverage.update({"exhaustive": True, "optable_cells": total, "per_group": per, "kernel_rows": len(rows),
+        out.coverage.update({"exhaustive": True, "optable_cells": total, "per_group": per, "kernel_rows": nrows,
                              "kernel_rows_disagreeing": nk,
-                             "traces_validated_against_impl": total + len(rows) + sum(
+                             "traces_validated_against_impl": total + nrows + sum(
                                  t["programs"] for t in out.coverage.get("trace_stages", [])) + icells,
                              "operations_without_a_row": _uncovered_operations(seen_ops, krows)})
     except tlc.MachineryError as e:
